@@ -216,6 +216,7 @@ func facts() map[string]any {
 		"cache_wrappers_touching_internals": cacheWrappersTouchingInternals(),
 		"cache_delegations":                 cacheDelegations(),
 		"limiter_cleanup_locks":             limiterCleanupLocks(),
+		"expiry_cleanup_not_conditional":    expiryCleanupNotConditional(),
 		"len_functions_touching_locks":      lenFunctionsTouchingLocks(),
 		"segmap_trylocks":                   tryLocks(),
 	}
@@ -447,6 +448,55 @@ func lenFunctionsTouchingLocks() []string {
 			if touches {
 				bad = append(bad, filepath.Base(rel)+":"+fd.Name.Name)
 			}
+		}
+	}
+	return bad
+}
+
+// expiryCleanupNotConditional lists the Get methods of the answer caches
+// (positive_cache.go, negative_cache.go) whose body removes by key alone
+// (Remove / Del / Add / Set) or does not call CompareAndDelete at all: the
+// cleanup of an entry a reader found expired must be conditional on identity.
+func expiryCleanupNotConditional() []string {
+	repo := os.Getenv("VERIF_REPO")
+	if repo == "" {
+		repo = "/repo"
+	}
+	bad := []string{}
+	for _, rel := range []string{"middleware/cache/positive_cache.go", "middleware/cache/negative_cache.go"} {
+		fset := token.NewFileSet()
+		file, err := parser.ParseFile(fset, filepath.Join(repo, rel), nil, 0)
+		if err != nil {
+			bad = append(bad, rel+":missing")
+			continue
+		}
+		found := false
+		for _, d := range file.Decls {
+			fd, ok := d.(*ast.FuncDecl)
+			if !ok || fd.Recv == nil || fd.Body == nil || fd.Name.Name != "Get" {
+				continue
+			}
+			found = true
+			cad, blunt := false, false
+			ast.Inspect(fd.Body, func(n ast.Node) bool {
+				if call, ok := n.(*ast.CallExpr); ok {
+					if sel, ok := call.Fun.(*ast.SelectorExpr); ok {
+						switch sel.Sel.Name {
+						case "CompareAndDelete":
+							cad = true
+						case "Remove", "Del", "Add", "Set":
+							blunt = true
+						}
+					}
+				}
+				return true
+			})
+			if !cad || blunt {
+				bad = append(bad, filepath.Base(rel)+":Get")
+			}
+		}
+		if !found {
+			bad = append(bad, filepath.Base(rel)+":Get:not-found")
 		}
 	}
 	return bad
